@@ -46,6 +46,19 @@ type Cmd struct {
 	Sorted bool                       `json:"sorted"`
 	Fields []string                   `json:"fields"`
 	Pause  int                        `json:"pause"`
+	Set    []SetQuery                 `json:"set"`
+	Conc   bool                       `json:"concurrent"`
+	SetID  string                     `json:"setId"`
+}
+
+// SetQuery is one member of a set of queries run one after the other or all
+// at once (C17).
+type SetQuery struct {
+	ID        string `json:"id"`
+	SQL       string `json:"sql"`
+	Mem       bool   `json:"mem"`
+	TimeoutUs int    `json:"timeoutUs"` // 0 = generous
+	Probe     string `json:"probe"`     // table name if this is a plain SELECT * probe
 }
 
 type Scenario struct {
@@ -351,6 +364,66 @@ func (r *runner) exec(c *Cmd) error {
 			line["err"] = err.Error()
 		}
 		ctl.Emit(line)
+	case "RunSet":
+		type res struct {
+			rows []zv.RawRow
+			err  error
+			dec  []zv.Row
+		}
+		out := make([]res, len(c.Set))
+		var wg sync.WaitGroup
+		start := make(chan struct{})
+		var starts int
+		ctl.Locked(func() { starts = ctl.ScanStarts })
+		for i := range c.Set {
+			i := i
+			q := c.Set[i]
+			wg.Add(1)
+			run := func() {
+				defer wg.Done()
+				if c.Conc {
+					<-start
+				}
+				to := stepTimeout
+				if q.TimeoutUs > 0 {
+					to = time.Duration(q.TimeoutUs) * time.Microsecond
+				}
+				out[i].rows, out[i].err = r.node.RawQuery(q.SQL, q.Mem, to)
+				if q.Probe != "" && out[i].err == nil {
+					out[i].dec = r.node.DecodeRaw(out[i].rows)
+				}
+			}
+			if c.Conc {
+				go run()
+			} else {
+				run()
+			}
+		}
+		if c.Conc {
+			close(start)
+			wg.Wait()
+		}
+		var scans int
+		ctl.Locked(func() { scans = ctl.ScanStarts - starts })
+		for i, q := range c.Set {
+			line := map[string]interface{}{"a": "Other", "set": c.SetID, "id": q.ID, "sql": q.SQL, "mem": q.Mem,
+				"concurrent": c.Conc, "raw": out[i].rows, "scans": scans, "nrows": len(out[i].rows)}
+			if out[i].rows == nil {
+				line["raw"] = []zv.RawRow{}
+			}
+			if out[i].err != nil {
+				line["err"] = out[i].err.Error()
+			}
+			ctl.Emit(line)
+			if q.Probe != "" && out[i].err == nil {
+				dec := out[i].dec
+				if dec == nil {
+					dec = []zv.Row{}
+				}
+				ctl.Emit(map[string]interface{}{"a": "QueryResult", "t": q.Probe, "mem": q.Mem, "rows": dec,
+					"fields": []string{}, "win": false, "held": 0})
+			}
+		}
 	case "RunSQL":
 		// any query; only its row count is recorded
 		n := 0
